@@ -156,6 +156,10 @@ func (o op) coq() string {
 		return fmt.Sprintf("OFinish %d %s", o.T, outc[o.Out])
 	case "finishsf":
 		return fmt.Sprintf("OFinishStartFail %d", o.T)
+	case "commit":
+		return fmt.Sprintf("OCommit %d", o.T)
+	case "served":
+		return "OServed"
 	case "isboot":
 		return "OIsBoot"
 	case "reload", "lcfault":
@@ -202,6 +206,7 @@ type world struct {
 	ctx  context.Context
 	done [3]chan bres
 	park [3]bool
+	held [3]bool // parked requests whose transaction etcd has already decided (the winner's answer is held)
 	R    *res.Result
 
 	// members' cluster id initialisation runs on a separate embedded etcd
@@ -342,8 +347,40 @@ func (w *world) exec(o op) string {
 			return "BBad"
 		}
 		w.ek.Release(fmt.Sprintf("b%d", o.T), modes[o.Out])
-		w.park[o.T] = false
+		w.park[o.T], w.held[o.T] = false, false
 		return bootObs(<-w.done[o.T])
+	case "commit":
+		// the parked transaction is sent and decided by etcd; a winner's answer is held on its way back
+		if !w.park[o.T] || w.held[o.T] {
+			return "BBad"
+		}
+		who := fmt.Sprintf("b%d", o.T)
+		w.ek.Release(who, kvx15.PassHold)
+		select {
+		case <-w.ek.Parked(who):
+			w.held[o.T] = true
+			return "BStarted"
+		case r := <-w.done[o.T]:
+			w.park[o.T] = false
+			return bootObs(r)
+		case <-time.After(120 * time.Second):
+			panic("released bootstrap transaction neither held nor answered")
+		}
+	case "served":
+		rc := w.x.S.GetRaftCluster()
+		if rc == nil {
+			return "BNotBoot"
+		}
+		var ids []uint64
+		for _, r := range rc.GetRegions() {
+			ids = append(ids, r.GetID())
+		}
+		sort.Slice(ids, func(i, j int) bool { return ids[i] < ids[j] })
+		var l []string
+		for _, id := range ids {
+			l = append(l, coqfmt.ZU(id))
+		}
+		return "BRegions " + coqfmt.List(l)
 	case "finishsf":
 		if !w.park[o.T] {
 			return "BBad"
@@ -945,7 +982,45 @@ func (w *world) genCase(r *rng.R, kind int, maxOps int) caseRec {
 				midle = append(midle, t)
 			}
 		}
+		heldT := -1
+		for t := range w.held {
+			if w.held[t] {
+				heldT = t
+			}
+		}
 		bootOp := func() bool {
+			if heldT >= 0 {
+				// a winner's answer is on its way back: other requests are handled completely in that window
+				switch r.Pick(40, 20, 10, 15, 15) {
+				case 0:
+					w.step(&c, op{K: "finish", T: heldT})
+				case 1:
+					if len(idle) == 0 {
+						return false
+					}
+					w.step(&c, op{K: "boot", T: idle[r.Intn(len(idle))], PK: pickPayload(r, malformed), Hdr: pickHdr(r, 5), Ver: pickVer(r)})
+				case 2:
+					var other []int
+					for _, t := range parked {
+						if t != heldT {
+							other = append(other, t)
+						}
+					}
+					if len(other) == 0 {
+						return false
+					}
+					w.step(&c, op{K: "finish", T: other[r.Intn(len(other))]})
+				case 3:
+					w.step(&c, op{K: "isboot"})
+				default:
+					w.step(&c, op{K: "call", H: safeWithRightID[r.Intn(len(safeWithRightID))]})
+				}
+				return true
+			}
+			if len(parked) > 0 && r.Pct(15) {
+				w.step(&c, op{K: "commit", T: parked[r.Intn(len(parked))]})
+				return true
+			}
 			switch r.Pick(22, 30, 26, 8, 7, 3, 8) {
 			case 0:
 				if len(idle) > 0 {
@@ -1039,6 +1114,14 @@ func (w *world) genCase(r *rng.R, kind int, maxOps int) caseRec {
 
 func directed(handlers []string) [][]op {
 	all := [][]op{
+		// (run first: the server has never loaded a cluster, as at a real first bootstrap - `served` is only used here)
+		// request A wins the transaction, etcd's answer reaches it late; in that window request B is handled completely: it
+		// is refused and changes nothing - it does not bring the raft cluster up; then A is answered and the leader serves
+		// the cluster A bootstrapped, A's first region included
+		{{K: "begin", T: 0, PK: "valid"}, {K: "commit", T: 0}, {K: "isboot"}, {K: "boot", T: 1, PK: "valid"}, {K: "isboot"}, {K: "served"},
+			{K: "finish", T: 0}, {K: "served"}, {K: "isboot"}, {K: "reload"}, {K: "served"}},
+		// ... the same with a parked second request that loses when it is released in the window
+		{{K: "begin", T: 0, PK: "valid"}, {K: "begin", T: 1, PK: "valid"}, {K: "commit", T: 1}, {K: "commit", T: 0}, {K: "isboot"}, {K: "finish", T: 1}, {K: "isboot"}, {K: "stop"}, {K: "isboot"}},
 		// three concurrent valid requests, the second one released first
 		{{K: "begin", T: 0, PK: "valid"}, {K: "begin", T: 1, PK: "valid"}, {K: "begin", T: 2, PK: "valid"}, {K: "finish", T: 1}, {K: "isboot"},
 			{K: "finish", T: 0}, {K: "finish", T: 2}, {K: "boot", T: 0, PK: "valid"}, {K: "reload"}, {K: "boot", T: 1, PK: "valid"}, {K: "isboot"}},
